@@ -35,6 +35,7 @@ const (
 // G is the scheduler's record of one goroutine.
 type G struct {
 	id     string
+	prio   int // PCT mode: scheduling priority (higher runs first)
 	node   string
 	wake   chan struct{}
 	state  gstate
@@ -68,6 +69,9 @@ type Sched struct {
 	dying   bool
 	last    *G
 	start   time.Time
+	pct     bool // priority-based schedule (PCT): highest priority runnable goroutine runs; priorities drop at a few change points
+	pctNext int  // step of the next priority change point
+	pctLow  int  // lowest priority handed out so far
 
 	Steps    int
 	hash     uint64
@@ -230,7 +234,15 @@ func Run(cfg Config, main func()) *Sched {
 	S = s
 	defer func() { S = nil }()
 	if cfg.KeepPct < 0 {
-		s.cfg.KeepPct = []int{0, 50, 90, 99}[s.ch.intn("cfg", 4)]
+		m := s.ch.intn("cfg", 5)
+		if m == 4 {
+			// PCT-style schedule: random priorities, few change points (finds orderings of a few
+			// events that a uniform random walk needs very many runs to hit)
+			s.pct = true
+			s.pctNext = 1 + s.ch.intn("pc", 300)
+			m = 0
+		}
+		s.cfg.KeepPct = []int{0, 50, 90, 99}[m]
 		cfg.KeepPct = s.cfg.KeepPct
 	}
 	root := &G{id: "0", wake: make(chan struct{}), state: parked, kind: "start"}
@@ -297,6 +309,19 @@ func Run(cfg Config, main func()) *Sched {
 		var g *G
 		if len(rs) == 1 {
 			g = rs[0]
+		} else if s.pct {
+			s.Ready2++
+			g = rs[0]
+			for _, x := range rs[1:] {
+				if x.prio > g.prio {
+					g = x
+				}
+			}
+			if s.Steps >= s.pctNext { // change point: the running goroutine drops below everybody
+				s.pctLow--
+				g.prio = s.pctLow
+				s.pctNext = s.Steps + 1 + s.ch.intn("pc", 300)
+			}
 		} else {
 			s.Ready2++
 			keep := false
@@ -396,6 +421,9 @@ func Go(f func()) {
 	}
 	p.nchild++
 	child := &G{id: p.id + "." + strconv.Itoa(p.nchild), node: p.node, wake: make(chan struct{}), state: parked, kind: "start"}
+	if s.pct {
+		child.prio = s.ch.intn("pp", 1<<16)
+	}
 	s.all = append(s.all, child)
 	s.mu.Unlock()
 	s.spawn(child, f)
